@@ -114,6 +114,9 @@ structure ChanRead where
   /-- the options of the call are refused by `_get_pixels_by_seg_frame` (dtype, rescale/combine combination, unknown or repeated
   segment numbers, overlap …): an exception raised INSIDE the `with` block, after the table has been set up -/
   bodyRefuses : Bool
+  /-- LABELMAP segmentation: the read makes NO channel query (`channel_indices = None`, no temporary table, `data` unused); the
+  stored label matrix is read as one channel and split into segments afterwards (`_get_pixels_by_seg_frame`, C02) -/
+  labelmap : Bool := false
 
 /-- One segment-aware region read on an image whose connection holds the temporary-table state `st`: new state and result.
 Order as in `_iterate_indices_for_tiled_region`: uniqueness test and request normalisation (refusals that leave the state alone),
@@ -121,6 +124,12 @@ then the set-up program, the body, and the clean-up program — which is skipped
 `yield` in `try … finally`. -/
 def stepRead {α} (z : α) (lut : List LutRow) (frames : List (Img α)) (rows cols th tw : Int) (full allowMissing : Bool)
     (q : ChanRead) (st : TempState) : TempState × Except ErrKind (Int × Int × (Int → Img α)) :=
+  if q.labelmap then
+    -- `channel_table_defs = []`: the loops of `_generate_temp_tables` run over nothing; the read is the plain region read
+    (st, match readRegion z lut frames rows cols th tw none q.rs q.re q.cs q.ce q.asIdx full allowMissing with
+         | .error e => .error e
+         | .ok (h, w, out) => if q.bodyRefuses then .error .value else .ok (h, w, fun _ => out))
+  else
   if !(uniquePos lut) then (st, .error .runtime) else
   match stdRowColIndices q.rs q.re q.cs q.ce rows cols q.asIdx false with
   | .error e => (st, .error e)
@@ -161,7 +170,11 @@ def historyStates {α} (z : α) (lut : List LutRow) (frames : List (Img α)) (ro
 /-- the request `get_total_pixel_matrix(segment_numbers=segs, combine_segments=False)` makes: channel `k` of the output is
 segment `segs[k]` -/
 def stackedRequest (segs : List Int) (rs re cs ce : Option Int) (asIdx : Bool) : ChanRead :=
-  ⟨(segs.zipIdx).map (fun (p : Int × Nat) => ((p.2 : Int), p.1)), (segs.length : Int), rs, re, cs, ce, asIdx, false⟩
+  ⟨(segs.zipIdx).map (fun (p : Int × Nat) => ((p.2 : Int), p.1)), (segs.length : Int), rs, re, cs, ce, asIdx, false, false⟩
+
+/-- a read of a LABELMAP segmentation: no channel query -/
+def labelmapRequest (rs re cs ce : Option Int) (asIdx : Bool) : ChanRead :=
+  ⟨[], 1, rs, re, cs, ce, asIdx, false, true⟩
 
 /-- frames and frame table of `Segmentation(tile_pixel_array=True)` as a reader sees them (`tileThenRead` up to the read):
 tile offsets, which tiles are kept, the TILED_FULL / `omit_empty_frames` refusal, the tiling loop, explicit or implied table -/
